@@ -7,7 +7,7 @@ from .common import *
 from .feas import (check_feasibility_rule, origins, PathEval, const_operand, absent_inserts, error_propagates, result_kind,
                    canon, whole, is_const, item_calls, enum_tests, generic_param,
                    dominates_ok, dominates_sem, must_pass_sem, loop_must2 as loop_must, returned_struct, field_is_none, with_renormalised, value_sources)
-from .C05 import inherited_from
+from .C05 import inherited_from, missing_is_error
 
 INST = 'v1::Instance'; DV = 'v1::DecisionVariable'; CON = 'v1::Constraint'; RC = 'v1::RemovedConstraint'
 SC = 'v1::SampledConstraint'; EC = 'v1::EvaluatedConstraint'; SS = 'v1::SampleSet'; SDV = 'v1::SampledDecisionVariable'
@@ -159,7 +159,11 @@ def evaluate_samples_rules(ctx, body):
         ctx.check(all(p in cs.call_objs for p in pushes), R + '/constraints-field-is-the-list', 'T-CARRY', body.name, 'SampleSet.constraints is not the list both loops push to', body.site(sbi))
     # ---- objective
     ex = T.expr(body, agg_field_operand(ss, 'objectives'), depth=14)
-    okobj = any(x[0] == 'call' and x[1] == 'evaluate_samples' and 'v1::Function as evaluate::Evaluate' in x[2] and T.expr_has_call(x[3][0], 'objective') and T.strip_wrappers(x[3][1]) == ('place', 2, []) for x in T.expr_walk(ex))
+    # ... evaluated on the function's own `samples` parameter, not on the clone that is completed further down (seed C06-19; `clone` is not transparent here)
+    def on_given_samples(x):
+        oc = [c for c in body.calls if len(x) > 4 and c.bb == x[4]]
+        return bool(oc) and root_local(body, oc[0].args[1]) == 2 and not T.access_path(body, oc[0].args[1], transparent=T.TRANSPARENT_NOCLONE)[0]
+    okobj = any(x[0] == 'call' and x[1] == 'evaluate_samples' and 'v1::Function as evaluate::Evaluate' in x[2] and T.expr_has_call(x[3][0], 'objective') and on_given_samples(x) for x in T.expr_walk(ex))
     ctx.check(okobj and ex[0] == 'agg' and ex[1].endswith('Option::Some') and [f for a, f in T.own_fields(ex[2][0]) if a == 'tuple'][-1:] == ['0'], R + '/objective', 'T-CARRY', body.name,
               'SampleSet.objectives is not Some(`.0` of self.objective().evaluate_samples(samples))', body.site(sbi))
     error_propagates(ctx, R + '/objective/error', body, [c for c in body.calls if c.item == 'evaluate_samples' and 'v1::Function as evaluate::Evaluate' in c.name], 'objective evaluation')
@@ -456,8 +460,8 @@ def constraint_rules(ctx):
     b = ctx.method('C06.rule/SampledConstraint::is_feasible/anchor', SC, 'is_feasible')
     if b is not None:
         check_feasibility_rule(ctx, 'C06.rule/SampledConstraint::is_feasible', b, 'given')
-        opt = [c for c in b.calls if c.item == 'as_ref' and 'SampledValues' in c.name]
-        error_propagates(ctx, 'C06.rule/SampledConstraint::is_feasible/missing-values', b, opt, 'missing evaluated_values')
+        # missing evaluated_values is an error, however the Option is opened (`.as_ref().context(..)?`, `let Some(v) = &self.evaluated_values else { bail! }`, match): one instance
+        missing_is_error(ctx, 'C06.rule/SampledConstraint::is_feasible/missing-values', b, SC, 'evaluated_values', [c for c in b.calls if c.item == 'iter' and c.path.endswith('SampledValues>::iter')], 'missing evaluated_values')
     # SampledConstraint::get
     b = ctx.method(R + '/get/anchor', SC, 'get')
     if b is not None:
@@ -473,7 +477,7 @@ def constraint_rules(ctx):
                       'evaluated_value is not self.evaluated_values.get(sample_id)', b.site(bi))
         g = [c for c in b.calls if c.item == 'get' and c.path.endswith('SampledValues>::get')]
         error_propagates(ctx, R + '/get/missing-sample-is-error', b, g, 'missing sample value')
-        error_propagates(ctx, R + '/get/missing-values-is-error', b, [c for c in b.calls if c.item == 'as_ref' and 'SampledValues' in c.name], 'missing evaluated_values')
+        missing_is_error(ctx, R + '/get/missing-values-is-error', b, SC, 'evaluated_values', g, 'missing evaluated_values')
         cover(ctx, 'C06.cover/SampledConstraint::get', b, SC, exempt=('feasible',))
 
 
@@ -593,7 +597,7 @@ def membership_tests(ctx, b):
         fs = T.access_path(b, c.args[0])[0]
         if (SVE, 'ids') not in fs or T.strip_wrappers(T.expr(b, c.args[1])) != ('place', 2, []): continue
         base = entry_base(T.expr(b, c.args[0]), SVE, 'ids')
-        if base is not None: out.append((base, T.guards_from_call(b, c)))
+        if base is not None: out.append((base, T.guards_from_call(b, c), c.dst['l']))
     for lo in T.for_loops(b):
         base = entry_base(T.expr(b, lo[0].args[0], depth=20), SVE, 'ids')
         if base is None or restricting(ctx, b, lo): continue
@@ -618,7 +622,7 @@ def membership_tests(ctx, b):
                     outside = {x for x in b.live if x not in lo[4]}
                     left = lambda bb: lo[1] not in b.reach([x for x in b.succ(bb) if x in lo[4]], stop=outside)      # no further id is looked at
                     if all(bb in hit and left(bb) for bb in trues) and all(bb not in lo[4] and (bb == lo[3] or b.dominates(lo[3], bb)) for bb in falses):
-                        out.append((base, T.guards_from_local(b, d, trues[0])))
+                        out.append((base, T.guards_from_local(b, d, trues[0]), d))
     return out
 
 
@@ -628,10 +632,12 @@ def values_get_rules(ctx, R, b):
          (b) entries.iter().find(|e| MEMBER(e)).map(|e| e.value)                      found = Some(e) / None, mapped to .value
          (c) let mut found = None; for e in entries { if found.is_none() && MEMBER(e) { found = Some(e.value) } } found      (or with `break`)
          (d) self.iter().find(|(id, _)| **id == id0).map(|(_, v)| *v)                   the type's own (id, &value) pairs, first pair with that id
+         (e) entries.iter().find_map(|e| MEMBER(e).then_some(e.value))
        MEMBER in any idiom of membership_tests()."""
     okk = False; nones = [e for e, k, rst in b.ret_assignments() if k == 'none']
     lo_all = loops_over(ctx, b, 'v1::SampledValues', 'entries')
-    for bi_, guards in membership_tests(ctx, b):
+    members = membership_tests(ctx, b)
+    for bi_, guards, mlocal in members:
         for g in guards:
             if g.true_bb is None: continue
             tr = b.reach([g.true_bb]); only_true = b.edge_region(g.switch_bb, g.true_bb)
@@ -680,6 +686,25 @@ def values_get_rules(ctx, R, b):
                     kept = kept and (leaves or guarded)
                 if kept:
                     okk = True; nones += nn
+    # (e) `entries.iter().find_map(|e| MEMBER(e).then_some(e.value))`: the verdict is turned into Some(value of that entry) / None by bool::then_some (or `then(|| ..)`),
+    #     the first Some leaves the loop and is the result, None when the entries are exhausted
+    for bi_, guards, mlocal in members:
+        lo = [l for l in lo_all if any(g.src_bb in l[4] for g in guards)] or [l for l in lo_all if bi_[0] == 'call' and bi_[1] == l[0].bb]
+        for tcall in b.calls:
+            if not re.search(r'bool>::then_some$|<impl bool>::then_some$', T.strip_generics_tail(tcall.name)) or len(tcall.args) != 2 or not lo or tcall.bb not in lo[-1][4]: continue
+            if canon(b, tcall.args[0])[0] != mlocal and not (tcall.args[0]['k'] in ('copy', 'move') and tcall.args[0]['pl']['l'] == mlocal): continue
+            if entry_base(T.expr(b, tcall.args[1]), SVE, 'value') != bi_ or not (bi_[0] == 'call' and bi_[1] == lo[-1][0].bb): continue
+            r = tcall.dst['l']; outside = {x for x in b.live if x not in lo[-1][4]}
+            # where r is Some: the Some side of a test of r's discriminant
+            some_regions = set()
+            for sb, m_, els in T.option_arms(b, r): some_regions |= b.edge_region(sb, m_.get(1, els))
+            # the result: r itself on that side (loop left), None otherwise
+            res_defs = b.defs_of(0)
+            takes = [(bb, d) for k, bb, d in res_defs if k == 'stmt' and d['rv']['k'] == 'use' and d['rv']['ops'][0]['k'] in ('copy', 'move') and d['rv']['ops'][0]['pl'] == {'l': r, 'p': []}]
+            nn = [bb for k, bb, d in res_defs if k == 'stmt' and d['rv']['k'] == 'agg' and d['rv']['adt'].endswith('Option::None')]
+            if takes and len(takes) + len(nn) == len(res_defs) and all(bb in some_regions and lo[-1][1] not in b.reach([x for x in b.succ(bb) if x in lo[-1][4]], stop=outside) for bb, d in takes) \
+                    and all(bb not in lo[-1][4] for bb in nn):
+                okk = True; nones += nn
     # (d) the type's own pair iterator reused: `self.iter().find(|(id, _)| **id == sample_id).map(|(_, v)| *v)` -- iter() yields (id, &value of the entry listing id)
     #     in storage order (C06.compress/iter/pairs), so the first pair with that id carries the value of the first entry containing it
     pair_loops = []
